@@ -18,10 +18,16 @@ def _extract_cases(prog):
     (kind source, expression source, indices accessed, where)"""
     f = prog.fn("ExpectationMaker::extract")
     o = Origins(f)
-    cap_locals = f.local_by_name("captures")
+    # the captures local is bound by role: the local of type Captures that holds the regex match
+    cap_locals = []
+    for l in range(len(f.locals)):
+        ds = f.defs.get(l, [])
+        if len(ds) == 1 and ds[0][2] == "call" and f.lty(l).startswith("std::vec::Vec<") and any(n.kind == "call" and method_name(n.a) == "Regex::captures" for n in o._def(ds[0], 0, ()).walk()):
+            cap_locals.append(l)
     if len(cap_locals) != 1:
-        raise AnchorError("ExpectationMaker::extract: local `captures` not found")
+        raise AnchorError("ExpectationMaker::extract: the local holding the regex captures (a Vec derived from Regex::captures) is not unique (%d)" % len(cap_locals))
     cap = cap_locals[0]
+    cap_name = f.lname(cap).split("(")[0]
 
     def is_captures(op):
         pl = op.get("copy") or op.get("move")
@@ -36,7 +42,7 @@ def _extract_cases(prog):
     def derives_from_capture(op, k):
         n = peel(o.operand(op))
         return n.kind == "call" and method_name(n.a) == "Index::index" and peel(n.kids[1]).kind == "const" and peel(n.kids[1]).a.as_int() == k \
-            and "captures" in peel(n.kids[0]).show()
+            and any(x.kind == "call" and method_name(x.a) == "Regex::captures" for x in n.kids[0].walk())
 
     table = {}
     for n in (1, 2, 3):
